@@ -39,7 +39,7 @@ func world() *fuzzWorld {
 		w := &fuzzWorld{
 			// indexes 0..4 are referred to below; keys of the other classes are appended
 			keys: []*kp{freshKey("ed25519", 1), freshKey("ed25519", 2), freshKey("secp256k1", 1), freshKey("ecdsa", 1), fixedRSAKey(),
-				freshKeyClass("ecdsa/P-384", 1), freshKeyClass("ecdsa/P-521", 1), freshKeyClass("ecdsa/P-224", 1)},
+				freshKeyClass("ecdsa/P-384", 1), freshKeyClass("ecdsa/P-521", 1)},
 			domains: []string{"c08-fuzz", peer.PeerRecordEnvelopeDomain, circuitproto.RecordDomain, "c08-fuzz2", "", "c08-fuz", "c08-fuzz\xf0"},
 			msg:     []byte("c08 fuzz message"),
 		}
